@@ -163,8 +163,8 @@ func buildWorld(h *History, rng *rand.Rand, big bool) *world {
 				default:
 					l = 1 + rng.Intn(1500)
 				}
-				if big && rng.Intn(3) == 0 {
-					l = 1400 + rng.Intn(101)
+				if big && rng.Intn(20) != 0 {
+					l = 1400 + rng.Intn(101) // 40..45 tokens of ~1450 bytes: 55..66 KiB per direction
 				}
 				b := make([]byte, l)
 				rng.Read(b)
@@ -690,13 +690,22 @@ func randomHistory(rng *rand.Rand, big bool) *History {
 	isnCls := []string{"low", "wrap", "half"}
 	st := make([]*cs, nc+1)
 	for c := 1; c <= nc; c++ {
-		cn := Conn{Hs: rng.Intn(10) < 7, Isn: [2]string{isnCls[rng.Intn(3)], isnCls[rng.Intn(3)]}}
+		pick := func() string { // mostly ordinary ISNs; some streams cross 2^31 or 2^32
+			switch r := rng.Intn(20); {
+			case r < 3:
+				return isnCls[1]
+			case r < 6:
+				return isnCls[2]
+			}
+			return isnCls[0]
+		}
+		cn := Conn{Hs: rng.Intn(10) < 7, Isn: [2]string{pick(), pick()}}
 		h.Conns = append(h.Conns, cn)
 		s := &cs{wantFin: rng.Intn(2) == 0}
 		for d := 1; d <= 2; d++ {
 			s.n[d] = rng.Intn(25)
 			if big {
-				s.n[d] = 30 + rng.Intn(16) // with ~1450-byte chunks: 45..65 KiB
+				s.n[d] = 40 + rng.Intn(6) // with ~1450-byte chunks: 55..66 KiB
 			}
 			s.nxt[d] = 1
 		}
